@@ -1,7 +1,5 @@
 SPECIFICATION Spec
 CONSTANT Sigs <- SigsNamed
-CONSTANT RowsInUse <- RowsFixed
-CONSTANT OffsetInUse <- OffsetFixed
 INVARIANT NameRowsHold
 INVARIANT ClausesHold
 CHECK_DEADLOCK FALSE
